@@ -294,6 +294,8 @@ def main():
     only = None
     if "--only" in a:
         only = set(int(x) for x in a[a.index("--only") + 1].split(",") if x)
+    if "--only-file" in a:
+        only = set(int(x) for x in open(a[a.index("--only-file") + 1]).read().split(",") if x)
     jobs = int(a[a.index("--jobs") + 1]) if "--jobs" in a else 8
     todo = [(i, c["oracle"]) for i, c in enumerate(cases) if c.get("oracle") and (only is None or i in only)]
     with Pool(jobs) as p:
